@@ -377,6 +377,8 @@ func protoAlphabet(role string, which string) []*protoEvent {
 		add(inEv("TestRequest(bad-length)", "1", false, false, "", true, func(w *world) []byte { return badLength(w.msg("1", "112=T2")) }))
 		add(inEv("TestRequest(length-1)", "1", false, false, "", true, func(w *world) []byte { return badLengthBy(w.msg("1", "112=T4"), -1) }))
 		add(inEv("Logout(length-3)", "5", false, false, "", true, func(w *world) []byte { return badLengthBy(w.msg("5"), -3) }))
+		add(inEv("Heartbeat(seq-empty)", "0", false, false, "", false, func(w *world) []byte { return withField(w.msg("0"), "34", "") }))
+		add(inEv("ResendRequest(begin-empty)", "2", false, false, "", true, func(w *world) []byte { return w.msg("2", "7=", "16=0") }))
 		add(inEv("ResendRequest(begin-not-numeric)", "2", false, false, "", true, func(w *world) []byte { return w.msg("2", "7=x", "16=0") }))
 		add(inEv("Logout(bad-checksum)", "5", false, false, "", true, func(w *world) []byte { return badChecksum(w.msg("5")) }))
 		add(inEv("Heartbeat(seq-missing,bad-checksum)", "0", false, false, "", false, func(w *world) []byte { return badChecksum(withField(w.msg("0"), "34", "\x00del")) }))
@@ -439,6 +441,23 @@ func protoCfgs(prop string, tier string) []*histCfg {
 				},
 			}
 			cfgs = append(cfgs, c)
+			if tier == "thorough" {
+				// deeper exploration over a core alphabet (the events that move the automaton or the timers)
+				core := map[string]bool{"Logon(ok,hb=30)": true, "Logon(credentials-refused)": true, "Logon(bad-checksum)": true, "Logout": true,
+					"local Logout": true, "Silence(35 s)": true, "Silence(3 periods)": true, "Heartbeat": true, "TestRequest": true,
+					"ResendRequest(1,0)": true, "ResendRequest(1,2)": true, "Logout(bad-checksum)": true, "TestRequest(length-1)": true, "Logon(hb=31>max)": true}
+				var calpha []event
+				for _, e := range alpha {
+					if core[e.Name] {
+						calpha = append(calpha, e)
+					}
+				}
+				cc := *c
+				cc.Name = c.Name + "/core"
+				cc.Alphabet = calpha
+				cc.Depth = 6
+				cfgs = append(cfgs, &cc)
+			}
 		}
 	}
 	return cfgs
